@@ -36,8 +36,9 @@ func (m *Method) Call(s *Scope, args List, depth int) Object {
 			loc := &WhopLoc{Method: m, Current: i, Args: args}
 			ws := s.NewScope()
 			ws.Let("~whopper-location~", loc)
-			(c.Wrap.(*Lambda)).Closure = ws
-
+			// The wrapper finds the location in the calling scope. It is
+			// not stored in the wrapper itself as that is shared by all
+			// calls.
 			return c.Wrap.Call(ws, args, depth+1)
 		}
 	}
@@ -84,7 +85,6 @@ func (m *Method) BoundCall(s *Scope, depth int) Object {
 			loc := &WhopLoc{Method: m, Current: i}
 			ws := s.NewScope()
 			ws.Let("~whopper-location~", loc)
-			(c.Wrap.(*Lambda)).Closure = ws
 			if bc, _ := c.Wrap.(BoundCaller); bc != nil {
 				return bc.BoundCall(ws, depth)
 			}
